@@ -528,6 +528,23 @@ class C(A, B2):
 c = C()
 c.conn
 ''', [(14, 20), (16, 2)], [(14, 23), (16, 6)]),
+    ('two-free-heads-in-the-linearisation', '''class Base(object):
+    def run(self):
+        return 1
+    shared = 1
+class Worker(Base):
+    pass
+class Mixin(object):
+    def run(self):
+        return 2
+    shared = 2
+class Other(object):
+    shared = 3
+class Job(Worker, Mixin, Other):
+    pass
+Job().run
+Job.shared
+''', [(15, 6), (16, 4)], [(15, 9), (16, 10)]),
     ('closures-globals', '''import sys, os.path
 from os import path as p1, sep as s1
 count = 0
@@ -572,7 +589,7 @@ print('REPRODUCED: the answer depends on the iteration order of a set' if outs[0
 
 
 @harness(['C17'], 'supp.linter.lint / supp.assistant.assist / location [every set(...) of the analysis modules iterates in an adversarial order]',
-         bounded='6 programs (branches, loops and try, class hierarchy with instance attributes, one attribute assigned through self in several bases, an attribute of a value merged from three branches, closures / globals / imports / comprehension) x '
+         bounded='7 programs (a hierarchy in whose linearisation several classes are free at once, branches, loops and try, class hierarchy with instance attributes, one attribute assigned through self in several bases, an attribute of a value merged from three branches, closures / globals / imports / comprehension) x '
                  '{lint, assist and location at 1-2 cursor positions} x 4 iteration orders of every set constructed through set() / frozenset() or held by a module global '
                  '(insertion order, reversed, rotated, interleaved); a source root with 8 files of every extension-suffix shape x 4 import completions')
 def api_independent_of_set_order(run):
